@@ -126,6 +126,16 @@ class ParseStream(runner.Stream):
         for toks in (["a--b"], ["x", "--", "y"], ["--"], ["a", "--b"]):
             one(simple_module("M", [("def", "A", None, seq([fld("s", ("str", "utf8", ("any",)), ("dflt", ("s", toks))), fld("t", INT)]))]),
                 "strdefault_comment")
+        # corpus (no finding): a value assignment that has the name of an enumeration item — `DEFAULT item`
+        # of a component typed by a reference to the ENUMERATED is the item, an INTEGER's bound / DEFAULT
+        # of the same name is the value
+        for vty, vlit in ((INT, ("i", 30)), (("bool",), ("b", True)), (STR, ("s", ["x"]))):
+            enum = ("enum", [("off", None), ("standby", None), ("active", None)], None)
+            fields = [fld("mode", ("ref", "Mode"), ("dflt", ("ref", "standby"))), fld("fallback", ("ref", "Mode"), ("dflt", ("ref", "active")))]
+            if vty is INT:
+                fields.append(fld("timeout", ("int", 0, ("ref", "standby"), False, []), ("dflt", ("ref", "standby"))))
+            one(simple_module("M", [("vr", "standby", vty, vlit), ("def", "Mode", None, enum), ("def", "Config", None, seq(fields))]),
+                "enum_item_vs_value")
         # regression: a separator as first token of a string literal (it was dropped)
         for toks in ([",", "a"], [":"], ["(", "x", ")"], [".", "."], ["'", "a"], ["=", "b", "c"], ["'"], ["{", "}"],
                      [";", ";", "x"], ["[", "0", "]", "z"]):
